@@ -117,7 +117,8 @@ def own_namespace_lookups(ctx, rep: Report, rule: str):
                     key = ast.unparse(call.args[0])
             elif isinstance(par, ast.Subscript) and par.value is node:
                 key = ast.unparse(par.slice)
-            ok = any((short == k[0] or short.endswith("." + k[0])) and k[1] == key for k in OWN_NS_ALLOWED)
+            from .base import site_allowed
+            ok = site_allowed(ctx, short, lambda s_, key=key: any((s_ == k[0] or s_.endswith("." + k[0])) and k[1] == key for k in OWN_NS_ALLOWED))
             frag = f"{key} in own namespace of {bsrc}" if key != "*" else f"own namespace of {bsrc}"
             rep.oblige(rule, f"{short}:{frag[:50]}", ok)
             if not ok:
